@@ -10,59 +10,69 @@ CHECKS = {
             "explicit-state BFS by replay over the real pool x deviation-bounded fault vectors (simnet)",
             "Per pool configuration (kind x maxsize x block x retries x preload/release mode) a breadth-first search over caller operations, "
             "each combined with every vector of environment answers within the deviation bound at every I/O step of every attempt; "
-            "slot/duplicate/lease/leak/open-count/exception-class invariants are evaluated after every transition on the real objects.",
+            "slot/duplicate/lease/leak/open-count/exception-class invariants are evaluated after every transition on the real objects. "
+            "Environment answers include will_close responses whose body stalls or is reset, a retried status with Retry-After whose wait can be interrupted, "
+            "and bodies that cannot be rewound (a second attempt ends in UnrewindableBodyError before a connection is taken).",
             "simnet socket stand-in (close()/makefile() release semantics), stub TLS for https kinds, environment answer menus listed in the evidence; bounds: deviation and depth per pass as recorded.",
             "DESIGN.md §3 C01"),
     "C02": ("model_checking",
             "stateless preemption-bounded schedule exploration of real threads on the real pool (controlled scheduler, simnet)",
             "Real threads run urlopen/close on one real pool under a scheduler that owns every interleaving decision (LINE events in the pool's shared-state functions + every queue stand-in operation); "
             "every schedule within the preemption bound is executed and checked for exclusive leases, the block=True open-socket bound, progress (deadlock detection), "
-            "own-tagged responses, ClosedPoolError-only failures under a racing close(), and socket reclamation after the pool is dropped.",
+            "own-tagged responses, ClosedPoolError-only failures under a racing close(), a socket never closed by a thread that does not hold its lease "
+            "(streaming responses disposed of by close()), and socket reclamation after the pool is dropped.",
             "CPython GIL memory model at source-line granularity; queue.LifoQueue replaced by a sequentially equivalent stand-in (checked at start-up); simnet sockets.",
             "DESIGN.md §3 C02"),
     "C03": ("model_checking",
             "exhaustive enumeration of request histories x server behaviours x caller behaviours on the real pool (simnet), tagged-payload oracle",
             "All histories of 2 (thorough: 3) requests over a step alphabet of method x server behaviour x segmentation x caller behaviour on 6 pool shapes; "
-            "every byte ever delivered for request i must be a prefix of payload(i); unclean sockets answer with poisoned payloads.",
+            "every byte ever delivered for request i must be a prefix of payload(i); unclean sockets answer with poisoned payloads. "
+            "Server behaviours include body tails that arrive late (after the next checkout) and look like responses - partial Content-Length/chunked bodies, "
+            "a broken chunk-size line, header block only (200 and 205); caller behaviours include release_conn() followed by close() or by dropping the response.",
             "simnet stand-in for sockets and for the readiness poll; alphabet as listed in mc/checks/c03.py.",
             "DESIGN.md §3 C03"),
     "C07": ("exploration",
             "exhaustive enumeration of the TLS settings lattice on real handshakes (socketpair + throw-away CAs), three-valued reference from the settings",
             "Every point of cert_reqs x trust x assert_hostname x assert_fingerprint x server_hostname x ssl_context x issuer x certificate/host shape x route x backend runs a real TLS handshake "
             "against a recording server; a reference computed from the settings alone says which checks are demanded and whether the presented certificate passes them; "
-            "a failed demanded check must leave zero application bytes at the server, raise SSLError and close the socket; unvalidated deliveries must warn exactly once and never report verified.",
+            "a failed demanded check must leave zero application bytes at the server, raise SSLError and close the socket; unvalidated deliveries must warn exactly once and never report verified. "
+            "Issuers: configured CA, unrelated CA, and a CA present only in the (simulated) system default store, against every way of configuring trust.",
             "OpenSSL / pyOpenSSL trusted for the crypto; socketpair transport; reference rules listed in the evidence assumptions; 'either' for CERT_OPTIONAL and for SSLContext/CERT_NONE configuration conflicts.",
             "DESIGN.md §3 C07"),
     "C10": ("exploration",
             "exhaustive enumeration of hostile strings per request field across entry points, strict independent wire parser (simnet)",
             "All strings up to the length bound over a hostile alphabet plus injection templates, for method, URL (by position), header name, header value, name/value pairs, automatic-header combinations and body kinds, "
-            "through HTTPConnection.request, HTTPConnectionPool.urlopen, PoolManager.request and HTTP2Connection.putheader; either nothing is written or the bytes parse as exactly the one requested request.",
+            "through HTTPConnection.request, HTTPConnectionPool.urlopen, PoolManager.request and HTTP2Connection.putheader; either nothing is written or the bytes parse as exactly the one requested request. "
+            "After every rejected call the same pool / manager / connection object (close(), then request()) must emit exactly the next benign request.",
             "simnet; two independent parsers (mc/httpparse.py and the check's own); http.client laxities listed in DESIGN §3 C10 are counted, not flagged.",
             "DESIGN.md §3 C10"),
     "C18": ("exploration",
             "exhaustive enumeration of request-context pairs derived from the constructors' signatures at run time",
             "The keyword universe is read from the current tree's constructor signatures and PoolKey; every ordered pair of call symbols differing in one keyword (and every location spelling pair) is executed on a fresh PoolManager; "
-            "a reference identity decides same/distinct/rejected; values are read back from the pool and a freshly built connection; manager defaults are snapshotted after every call.",
+            "a reference identity decides same/distinct/rejected; values are read back from the pool and a freshly built connection; manager defaults are snapshotted after every call. "
+            "Forwarded requests of a ProxyManager (pool to the proxy) are covered by keyword pairs through pool_kwargs.",
             "no sockets; unknown keyword => harness error (exit 2) so a new keyword cannot pass silently.",
             "DESIGN.md §3 C18"),
     "C12": ("model_checking",
             "exhaustive enumeration of read-call sequences x response shapes on real HTTPResponse objects (simnet), payload-equality oracle",
             "For every response spec (payload size x content coding x framing x socket segmentation x decode_content) every sequence of read calls up to the length bound "
             "(completed by read(7)-until-empty) and every single-API program runs on a fresh real response obtained through HTTPConnection.getresponse(); "
-            "the concatenation must equal the reference payload, sized reads never exceed n, nothing after the end, no empty streamed piece, no exception.",
+            "the concatenation must equal the reference payload, sized reads never exceed n, nothing after the end, no empty streamed piece, no exception. "
+            "Mixed programs leave a stream()/read_chunked() generator suspended after k pieces and let another API read the rest.",
             "simnet socket stand-in; reference payloads from the gzip/zlib/zstandard one-shot encoders; brotli absent in this image.",
             "DESIGN.md §3 C12"),
     "C13": ("fault_enumeration",
             "exhaustive fault enumeration (every cut, size-line corruption, bit flip, content cut) x read programs through a real pool (simnet), three-valued reference",
             "Every truncation point, every single-byte corruption of each chunk-size line, bit flips at every byte of the compressed stream and every content cut inside intact framing, "
-            "each read by every read program through a real pool followed by a second request; an independent reference decides bad / either / ok.",
+            "each read by every read program (incl. read1() without a size) through a real pool followed by a second request, with the peer closing after the faulty response and with the peer keeping the connection open; "
+            "an independent reference decides bad / either / ok.",
             "simnet stand-in; reference chunked de-framer and std decompressobj verdicts in mc/checks/c13.py; 'either' regions documented there.",
             "DESIGN.md §3 C13"),
     "C17": ("model_checking",
             "explicit-state BFS to fixpoint (container, manager) + preemption-bounded schedule exploration of real threads with brute-force linearizability check",
             "(a) BFS to fixpoint over the real RecentlyUsedContainer vs an LRU reference; (b) all interleavings up to the preemption bound of 2-3 real threads doing container operations, "
             "each checked for linearizability, dispose-outside-lock and visible size bound; (c) BFS over PoolManager histories on simnet (LRU order, identity, reclamation of evicted pools); "
-            "(d) all bounded interleavings of racing connection_from_url/clear.",
+            "(d) all bounded interleavings of racing connection_from_url/clear, each checked for linearizability against a sequential get-or-create cache (returned pools and final cache).",
             "CPython GIL, source-line granularity + lock stand-in operations; SchedRLock checked against threading.RLock at start-up; simnet for sockets.",
             "DESIGN.md §3 C17"),
     "C16": ("model_checking",
@@ -85,14 +95,17 @@ CHECKS = {
             "exhaustive enumeration of redirect graphs (chains, loops, 13 Location forms, all 3xx codes) x policy values x policy placements x clients on the real redirect code (simnet), request-log walker oracle",
             "Every chain/loop of the budget family (every policy value in {None, False, 0, 1, 2, Retry(redirect=k), Retry(total=k), raise_on_redirect T/F} placed at request, pool or manager level, "
             "via PoolManager, ProxyManager and a bare pool, GET and POST+body) and of the form family (13 Location forms x 301/302/303/307/308 plus 300/304) is executed; a walker over the network's request log "
-            "requires request j to be the j-th intended request with the right method/body/content headers, a follow-up while the budget lasts and none afterwards, and the outcome the statement names.",
+            "requires request j to be the j-th intended request with the right method/body/content headers, a follow-up while the budget lasts and none afterwards, and the outcome the statement names. "
+            "Further families: an explicit request-level retries=None over a constructor-level policy; the first attempt dying after the request was received so that the RETRIED attempt gets the redirect; "
+            "constructor-level default headers with content headers under request headers made of content headers only.",
             "stateless chain server (mc/c05_chains.py) encodes the remaining chain in the URL; only redirects consume budget here (C04 owns faults).",
             "DESIGN.md \u00a73 C05"),
     "C06": ("exploration",
             "exhaustive enumeration of redirect chains x origin-change kinds x header spellings x containers x strip policies on the real PoolManager/ProxyManager/pool (simnet), relational request-log oracle",
             "Every chain whose hops change host, port, scheme or only letter case / explicit default port, for every spelling of the sensitive header names, every container (dict, HTTPHeaderDict with repeats, manager defaults), "
             "custom remove_headers_on_redirect sets at request and manager level, all 3xx codes and Location forms; from the first origin change on no strip-set header may appear, every other header must arrive unchanged, "
-            "single-host pools must raise HostChangedError without dialling elsewhere.",
+            "single-host pools must raise HostChangedError without dialling elsewhere. Also: manager defaults carrying credentials under request headers made of strip-set fields only "
+            "(no header may APPEAR on a later hop), chains from a non-default port (scheme change keeps host and port), and chains whose first attempt is broken and retried.",
             "origins are judged from what the network saw (dialled address, TLS layer, absolute-form target, CONNECT authority) by an independent normaliser.",
             "DESIGN.md \u00a73 C06"),
     "C08": ("exploration",
@@ -106,7 +119,9 @@ CHECKS = {
             "exhaustive enumeration of proxy configurations x CONNECT faults x request histories on the real ProxyManager/tunnel code (simnet with TLS-nesting labels), truth-table + per-socket rule oracle",
             "Every (proxy scheme, destination scheme, use_forwarding_for_https, proxy cert ok/bad, origin cert ok/bad, CONNECT answer 200/403/407/502/garbage/EOF, proxy_headers, request headers, host form) with histories of 1-3 requests "
             "and the server closing the tunnel in between; every byte is labelled with the TLS nesting it travelled in; tunnel iff the documented truth table says so, CONNECT authority exact, origin-form inside / absolute-form outside, "
-            "proxy headers never inside a tunnel, refused CONNECT => request never sent and ProxyError/SSLError, closed tunnel re-established before reuse.",
+            "proxy headers never inside a tunnel, refused CONNECT => request never sent and ProxyError/SSLError, closed tunnel re-established before reuse. "
+            "Also: redirect chains that switch one caller request between forwarding and tunnelling, one SSLContext shared by the proxy and destination layers with proxy_assert_hostname, "
+            "and a private CA pinned for destinations only (the proxy leg keeps its own trust domain).",
             "stub TLS stands in for OpenSSL (conformance-checked against real TLS via mc.tlsnet on fault-free tunnel cases each run); python 3.12 http.client._tunnel writes CONNECT.",
             "DESIGN.md \u00a73 C09"),
     "C11": ("exploration",
@@ -127,7 +142,8 @@ CHECKS = {
             "exhaustive enumeration of grammar URLs x client kinds (direct, forwarding proxy, CONNECT tunnel) on the real PoolManager/ProxyManager (simnet), relational wire oracle",
             "Every URL of the component product (hostnames, IPv4, bracketed IPv6 with/without zone, IDN, trailing dot, explicit/default/odd ports, userinfo, empty path with query, fragments) that the manager accepts is requested; "
             "the dialled address, Host header, TLS server name, CONNECT authority and request target are read off the network and compared with an independent reading of the URL; "
-            "case/default-port variants must reach the same pool and produce byte-identical requests; URLs without a host must be rejected.",
+            "case/default-port variants must reach the same pool and produce byte-identical requests; URLs without a host must be rejected. "
+            "Redirect follow-ups (chains of 1-2 hops over every Location form) are requests for URLs too: the Host header of every request must name the origin that request is addressed to.",
             "simnet records what create_connection and the TLS layer were given; zone-id spelling in Host/CONNECT is 'either'.",
             "DESIGN.md \u00a73 C15"),
     "C19": ("exploration",
@@ -140,7 +156,8 @@ CHECKS = {
     "C20": ("exploration",
             "exhaustive enumeration of hostile field names / filenames / values / field-list shapes through encode_multipart_formdata and request_encode_body, strict independent multipart parser",
             "All names and filenames up to the length bound over a hostile alphabet (quotes, CR, LF, backslash, semicolon, non-ASCII, boundary look-alikes), values that contain boundary prefixes, tuple/dict/RequestField inputs and field lists up to the arity bound: "
-            "the body must parse under the strict parser into exactly the given fields in order, with WHATWG-escaped names, the data bytes intact, the boundary of the returned content type, and a closing delimiter.",
+            "the body must parse under the strict parser into exactly the given fields in order, with WHATWG-escaped names, the data bytes intact, the boundary of the returned content type, and a closing delimiter. "
+            "The same field objects encoded a second time must give the same bytes; a caller's HTTPHeaderDict used for two requests must not carry the first boundary into the second.",
             "boundaries are read from the returned content type (os.urandom stand-in keeps them deterministic); precondition: boundary does not occur in any supplied string.",
             "DESIGN.md \u00a73 C20"),
 }
